@@ -486,7 +486,7 @@ def run_case(case, model=None):
     with spies() as rec, quiet():
         rec["starts"] = rec_starts
         try:
-            with time_limit(120):
+            with time_limit(900):  # guard against a hang only (CPU seconds; the longest chains take tens of seconds on a loaded machine)
                 if algo_obj is not None:
                     from leaspy.models import BaseModel
 
